@@ -538,17 +538,7 @@ def trajectory_and_simulation_aliases(ctx):
         m = c09.gen_model(rng, 3000 + k)
         if m["aliases"]:
             specs.append(m)
-    # initial_state.csv columns named after a negated / a plain alias of a state whose start is left at its default
-    sc = str(Fraction(-1, 4 * 3600))
-    for nm, sign, val in (("neg_x1", -1, "5/2"), ("same_x1", 1, "-7/4")):
-        specs.append({"name": "MAlias" + nm.split("_")[0], "dt": 3600, "nsteps": 2,
-                      "states": [{"name": "x0", "start": "1", "fixed": True, "nominal": "10"}, {"name": "x1"}],
-                      "algebraics": [{"name": nm}], "inputs": [{"name": "u0"}], "outputs": ["x0", "x1", nm], "parameters": [],
-                      "equations": [[["v", "der(x0)"], ["+", ["*", ["c", sc], ["v", "x0"]], ["*", ["c", sc], ["v", "u0"]]]],
-                                    [["v", "der(x1)"], ["*", ["c", sc], ["v", "x1"]]],
-                                    [["v", nm], ["neg", ["v", "x1"]] if sign < 0 else ["v", "x1"]]],
-                      "delays": [], "aliases": [[nm, "x1", sign]], "series": {"u0": ["1", "2", "0"]},
-                      "initial_state_csv": {nm: val}, "free_start": {"x1": str(sign * Fraction(val))}})
+    specs += c09.alias_initial_state_specs()
     with ProcessPoolExecutor(max_workers=8) as ex:
         results = list(ex.map(c09.safe_run, specs))
     for spec, res in zip(specs, results):
